@@ -31,7 +31,21 @@ from pyairtouch.comms.crc16 import Crc16Modbus
 from pav import sockops
 from pav import gens, refproto
 from pav.harness import Stats, Violation, drive, given_test
-from pav.rig import SockRig, console_frames
+from pav import ser
+from pav.rig import SockRig
+from pav.rig import console_frames as _console_frames
+
+
+def console_frames(gen, messages, **kw):
+    """Frames for the simulated console, produced by the library's own send path.  If the independent framing rejects what
+    the library wrote (wrong check bytes), that is a finding of this check, not a harness failure."""
+    try:
+        return _console_frames(gen, messages, **kw)
+    except ValueError as exc:
+        if "error=crc" not in str(exc):
+            raise
+        raise Violation("C06:written-frame-bad-checksum", f"a frame written by the client is rejected by the independent CRC-16/MODBUS "
+                        f"framing: {exc}", {"part": "written", "gen": gen, "messages": [ser.to_json(m) for m in messages], "kw": kw})
 
 ID = "C06"
 LEVEL = "fault_enumeration"
@@ -417,6 +431,13 @@ def run_shard(spec, seed: int, tier: str):
         strat = st.tuples(st.lists(st.binary(min_size=3, max_size=3), min_size=n3 and per, max_size=n3 and per),
                           st.lists(st.binary(min_size=4, max_size=4096), min_size=1, max_size=4))
         drive(stats, lambda s: given_test(strat, lambda c: stats.guard(body, c), s, max(n3, spec["nlong"] // 3), shrink=True), seed)
+        # every length 0..1100 (all prefixes of a generated string): table-driven / blocked / unrolled implementations have
+        # their special cases at particular lengths (block multiples, empty tails), which random lengths meet only by luck
+        def sweep(b):
+            for n in range(len(b) + 1):
+                check_crc(b[:n], with_validate=n >= 1)
+            stats.classes["crc:every-length-0-1100"] += 1
+        drive(stats, lambda s: given_test(st.binary(min_size=1100, max_size=1100), lambda c: stats.guard(sweep, c), s, 3, shrink=False), seed + 1)
         stats.evaluations = sum(v for k, v in stats.classes.items() if k.startswith("crc:"))
     elif part == "patterns":
         gen = spec["gen"]
@@ -479,6 +500,8 @@ def replay(case):
             b = bytes.fromhex(case["input"])
             check_crc(b)
             check_validate_length(b)
+        elif case["part"] == "written":
+            console_frames(case["gen"], [ser.from_json(j) for j in case["messages"]], **case.get("kw", {}))
         elif case["part"] == "pattern":
             word_frame = bytes.fromhex(case["frame"])
             s, _ = covered_span(case["gen"], word_frame)
